@@ -29,7 +29,7 @@ func (r *zzC09Chunks) Read(p []byte) (int, error) {
 	for r.ci < len(r.cuts) && r.cuts[r.ci] <= r.pos {
 		r.ci++
 	}
-	if r.ci < len(r.cuts) {
+	if r.ci < len(r.cuts) && r.cuts[r.ci] < end {
 		end = r.cuts[r.ci]
 		r.ci++
 	}
@@ -129,24 +129,47 @@ func zzC09HasRadixBelow2(src []byte) bool {
 }
 
 // VerifC09Read: mode 0 Read, 1 ReadOne, 2 ReadStream whole, 3 ReadStream cut
-// after the first byte.
-func VerifC09Read(n, alpha, mode int) {
+// after the first byte.  alpha 0: all 256 byte values, 1: zzC09Alpha.  first
+// >= 0 fixes the first byte to zzC09Alpha[first] (splits the long texts into
+// parallel cases).
+func VerifC09Read(n, alpha, mode, first int) {
 	src := zzC09Src(n, alpha)
+	if 0 <= first && 0 < n {
+		vrt.Assume(src[0] == zzC09Alpha[first])
+	}
+	if first == -2 {
+		// probe of the radix finding: "#1r" followed by a digit (with an empty
+		// digit string math/big returns before it looks at the base; the
+		// engine's SetString model panics there too, which is why the region
+		// of the carve includes the empty digit string)
+		vrt.Assume(src[0] == '#' && src[1] == '1' && src[2] == 'r' && src[3] == '1')
+	}
 	zzC09ReaderCarves(src)
 	scope := NewScope()
-	class := zzC09Run(func() {
-		switch mode {
-		case 0:
-			Read(append([]byte{}, src...), scope)
-		case 1:
-			ReadOne(append([]byte{}, src...), scope)
-		case 2:
-			ReadStream(&zzC09Chunks{src: src}, scope)
-		default:
-			ReadStream(&zzC09Chunks{src: src, cuts: []int{1}}, scope)
-		}
+	class := zzC09Value
+	cut := zzC09Guard(2000000, 400, func() {
+		class = zzC09Run(func() {
+			switch mode {
+			case 0:
+				Read(append([]byte{}, src...), scope)
+			case 1:
+				ReadOne(append([]byte{}, src...), scope)
+			case 2:
+				ReadStream(&zzC09Chunks{src: src}, scope)
+			default:
+				ReadStream(&zzC09Chunks{src: src, cuts: []int{1}}, scope)
+			}
+		})
 	})
 	vrt.Reach("read")
+	vrt.Assert(cut != 1, "allocation whose size can exceed 2^31 elements")
+	if cut == 2 {
+		// #<n>A with 64 < n <= 1024 dimensions (array rank limit): an
+		// allocation of n ints, allowed, not explored further
+		vrt.Reach("large-allocation-cut")
+		return
+	}
+	vrt.Assert(cut == 0, "reading does not finish within its budget")
 	vrt.Assert(class != zzC09Fault, "Go run-time fault in the reader")
 	vrt.Assert(class != zzC09Foreign && class != zzC09Wrapped, "reader panics with a value that is not a Lisp condition")
 	vrt.Assert(vrt.Faults() <= 0, "Go run-time fault raised (and swallowed) while reading")
@@ -155,7 +178,8 @@ func VerifC09Read(n, alpha, mode int) {
 // zzC09Guard runs f (which recovers its own panics) and reports how it ended:
 // 0 it returned; 1 it allocated without bound; 2 (engine only) it reached an
 // allocation of 65..2^31 elements, which the engine does not explore further;
-// 3 it did not finish within its budget.  In the engine this function is an
+// 3 it did not finish within its budget of steps (natively: of time); 4
+// (engine only) it forked more often than its budget of symbolic decisions.  In the engine this function is an
 // intrinsic (/verif/engine/x_c09.go): budgets are SSA instructions and
 // symbolic decisions, "without bound" means an allocation whose symbolic size
 // can exceed 2^31 elements under the path condition.  Natively (replay of a
